@@ -114,6 +114,12 @@ def run_configs(ctx, configs, nontrivial_keys, rule, assumptions,
     cov['distinct_nontrivial'] = cov['nontrivial_counters'].get(
         nontrivial_keys[0], 0)
     cov['rule'] = rule
+    # exhaustive = every history within the stated bounds (depth, deviations,
+    # alphabet) was executed; a time/state cap makes it False
+    cov['exhaustive'] = not cov['caps_hit']
+    cov['bound'] = ('all event histories up to the depth and deviation bound '
+                    'of each configuration (coverage.configs), deduplicated '
+                    'on the canonical state')
     cov['impl_exceptions'] = impl_exc
     # vacuity guard: a run in which the antecedent never fired proves nothing
     for k in nontrivial_keys:
